@@ -563,6 +563,123 @@ func runC04(c *Ctx) {
 			c.Check(len(ar) > 0 && len(by) == 0, "C04.5-full-validation", FuncName(fn)+"|ApplyRecord-after-NewValidateFull", p.Pos(fn.Pos()), "every ApplyRecord on the validation copy is preceded by installing recordverifier.NewValidateFull()")
 		}
 	}
+	runC04RequestIndex(c)
+}
+
+// runC04RequestIndex — C04.6: pendingRequests (identity → request id) and
+// requestRecords (request id → request) index one set of open requests; the
+// validators find a request through either (ValidateRequestAccept/Decline by
+// record id, ValidateRequestJoin/Remove/Cancel by identity). A function that
+// inserts into / deletes from one of them on the state it was called on must
+// do the same to the other on every success path, or a request that was
+// superseded stays acceptable through the other index.
+func runC04RequestIndex(c *Ctx) {
+	p := c.P
+	rule := "C04.6-request-index-pairing"
+	fPend := p.Field(aclList + ":AclState.pendingRequests")
+	fRecs := p.Field(aclList + ":AclState.requestRecords")
+	var fns []*ssa.Function
+	for _, fn := range p.FuncsOfPkg(aclList) {
+		if !isTestSupport(p, fn) && !strings.Contains(p.Pos(fn.Pos()), "listutils.go") {
+			fns = append(fns, fn)
+		}
+	}
+	onReceiver := func(w Write) bool {
+		top := TopFunc(w.Fn)
+		if len(top.Params) == 0 || top.Signature.Recv() == nil {
+			return false
+		}
+		var m ssa.Value
+		switch x := w.Instr.(type) {
+		case *ssa.MapUpdate:
+			m = x.Map
+		case *ssa.Call:
+			m = x.Call.Args[0]
+		}
+		if m == nil {
+			return false
+		}
+		vals, _ := Origins(m)
+		for _, o := range vals {
+			if _, base := LoadedField(o); base != nil {
+				bv, _ := Origins(base)
+				for _, b := range bv {
+					if b == ssa.Value(top.Params[0]) {
+						return true
+					}
+				}
+				if base == ssa.Value(top.Params[0]) {
+					return true
+				}
+			}
+		}
+		return false
+	}
+	type key struct {
+		fn   *ssa.Function
+		kind string
+	}
+	sites := map[key]map[*types.Var][]ssa.Instruction{}
+	for _, f := range []*types.Var{fPend, fRecs} {
+		for _, w := range FieldWrites(fns, f) {
+			if (w.Kind != "mapupdate" && w.Kind != "mapdelete") || !onReceiver(w) {
+				continue
+			}
+			k := key{w.Fn, w.Kind}
+			if sites[k] == nil {
+				sites[k] = map[*types.Var][]ssa.Instruction{}
+			}
+			sites[k][f] = append(sites[k][f], w.Instr)
+		}
+	}
+	var keys []key
+	for k := range sites {
+		keys = append(keys, k)
+	}
+	sort.Slice(keys, func(i, j int) bool {
+		if FuncName(keys[i].fn) != FuncName(keys[j].fn) {
+			return FuncName(keys[i].fn) < FuncName(keys[j].fn)
+		}
+		return keys[i].kind < keys[j].kind
+	})
+	n := 0
+	for _, k := range keys {
+		c.Fn(FuncName(k.fn))
+		for _, pair := range [][2]*types.Var{{fPend, fRecs}, {fRecs, fPend}} {
+			a, b := pair[0], pair[1]
+			for i, m1 := range sites[k][a] {
+				n++
+				construct := fmt.Sprintf("%s|%s of %s #%d is matched in %s", FuncName(k.fn), k.kind, a.Name(), i+1, b.Name())
+				others := sites[k][b]
+				isOther := func(in ssa.Instruction) bool {
+					for _, o := range others {
+						if o == in {
+							return true
+						}
+					}
+					return false
+				}
+				ok := false
+				for _, o := range others {
+					if o.Block() == m1.Block() {
+						ok = true
+					}
+				}
+				if !ok && len(others) > 0 {
+					// the partner precedes on every path, or follows on every success path
+					byBefore, _ := MustPass(k.fn, nil, isOther, []ssa.Instruction{m1}, nil)
+					byAfter, _ := MustPass(k.fn, m1, isOther, SuccessReturns(k.fn), nil)
+					ok = len(byBefore) == 0 || len(byAfter) == 0
+				}
+				det := "both indexes of the open-request set change together"
+				if !ok {
+					det = fmt.Sprintf("%s is changed (%s) without the same change to %s on some success path: a request stays reachable through %s after it was resolved or superseded", a.Name(), k.kind, b.Name(), b.Name())
+				}
+				c.Check(ok, rule, construct, p.Pos(InstrPos(m1)), det)
+			}
+		}
+	}
+	c.Min(rule, 12)
 }
 
 // requirePropagates: from the failing edge of a call matching m, neither a
